@@ -57,6 +57,8 @@ def classes_for(form, flex):
         out.append(c)
     if form == "var1":
         out.remove("zero")
+    if form == "varn":
+        out += ["valid2", "valid2", "zero0"]      # varn with a different number of sub-requests on different ranks (2, 1, 0)
     return out
 
 
@@ -179,9 +181,14 @@ def data_args(case, r, cls):
     elif form == "varn":
         if cls == "null_start":
             kw.update(num=1, starts=None, counts=[count])
+        elif cls == "valid2":
+            kw.update(num=2, starts=[[r, 0], [r, 1]], counts=[[1, 1], [1, Y - 1]])
+        elif cls == "zero0":
+            kw.update(num=0, starts=None, counts=None)
+            nel = 0
         else:
             kw.update(num=1, starts=[start], counts=[count])
-    bufn = max(nel, 1) if cls in ("valid", "zero") else Y
+    bufn = max(nel, 1) if cls in ("valid", "valid2", "zero", "zero0") else Y
     if flex:
         if cls == "bad_buftype":
             kw.update(buftype="ldouble", bufcount=nel)
@@ -218,8 +225,8 @@ def build_data(p, case, info):
     safe = case.get("safe")
     prefill(p, k, tag=1)
     info["labels"].update(["form_" + form, kind, target, "flex" if flex else "typed"] + ["cls_" + c for c in classes])
-    nvalid = sum(1 for c in classes if c == "valid")
-    nbad = sum(1 for c in classes if c not in ("valid",))
+    nvalid = sum(1 for c in classes if c in ("valid", "valid2"))
+    nbad = sum(1 for c in classes if c not in ("valid", "valid2")) + (1 if len(set(c for c in classes if c in ("valid", "valid2"))) == 2 else 0)
     info["nontrivial"] = nvalid >= 1 and nbad >= 1
     sn = p.s.same_n()
     rec = {}
@@ -291,7 +298,7 @@ def build_data(p, case, info):
                 out.append({"kind": "numrecs", "msg": "rank %d sees numrecs %s expected %d" % (rr, d["numrecs"], k), "sig": {"kind": "numrecs"}})
                 continue
             a = np.frombuffer(bytes.fromhex(d["vars"][vid]["data"]), dtype="i4").reshape(k if target == "record" else X, Y)
-            wrote = set(r for r in range(k) if classes[r] == "valid" and res.rc(sn, r) == 0)
+            wrote = set(r for r in range(k) if classes[r] in ("valid", "valid2") and res.rc(sn, r) == 0)
             for r in range(k):
                 tag = 2 if (kind == "put" and r in wrote) else 1
                 want = row_vals(r, tag)
@@ -305,7 +312,7 @@ def build_data(p, case, info):
     if kind == "get":
         def chk_buf(res):
             out = []
-            for r in [r for r in range(k) if classes[r] == "valid" and res.rc(sn, r) == 0]:
+            for r in [r for r in range(k) if classes[r] in ("valid", "valid2") and res.rc(sn, r) == 0]:
                 e = res.get(sn, r)
                 got = list(struct.unpack("%di" % (len(e["hex"]) // 8), bytes.fromhex(e["hex"])))
                 want = row_vals(r, 1) if form != "var1" else [row_vals(r, 1)[0]]
@@ -486,7 +493,7 @@ def build_safe_meta(p, case, info):
 
 
 # known finding F05: collective put on a record variable with a dispatcher-detected argument error on some rank
-DRIVER_LEVEL = ("valid", "zero", "bufcount_mismatch", "bad_buftype")   # classes that reach put_varm() with the variable known
+DRIVER_LEVEL = ("valid", "valid2", "zero", "zero0", "bufcount_mismatch", "bad_buftype")   # classes that reach put_varm() with the variable known
 
 
 def is_known_record_put(case):
